@@ -192,6 +192,7 @@ def run_history(m, scratch, config, ops, tag):
     shared = "meta" not in config
     uu_index, cid_of_value, digest_of_cid = {}, {}, {}
     live = {}       # (fname,arg) -> (content key (key,uuid), digest at creation)
+    last_vid = {}   # (fname,arg) -> id of the value its live memento was created with
     steps, bad = [], []
     for i, op in enumerate(ops):
         rec = d.apply(list(op))
@@ -203,6 +204,22 @@ def run_history(m, scratch, config, ops, tag):
         tab = [t for t in scan(data_root) if not (shared and t[0].startswith("m/"))]
         kind = op[0]
         term = None
+        if kind == "read":
+            # a live memento keeps reading the value that was stored when it was created, whatever was written since under
+            # the same override key for other calls
+            want_vid = last_vid.get((op[1], op[2]))
+            got = rec.get("out", "")
+            if want_vid is not None and got != "BVal (Some %d)" % want_vid:
+                bad.append(("memento-reads-other-value", i, "the memento of %r was created with value %d; reading it now gives %s" % ((op[1], op[2]), want_vid, got)))
+        if kind == "memoize":
+            last_vid[(op[1], op[2])] = 0 if op[4] == "z" else op[5]
+        elif kind == "fcall":
+            last_vid.pop((op[1], op[2]), None)
+        elif kind == "ffn":
+            for k in [k for k in last_vid if k[0] == op[1]]:
+                last_vid.pop(k)
+        elif kind == "fall":
+            last_vid.clear()
         if kind == "memoize":
             _, fname, arg, mid, vk, vid, n, ov = op
             null = vk == "z"
@@ -298,8 +315,19 @@ def run(tier, seed):
         nontriv = set()
         dist = {"dedup_reuse": 0, "override_writes": 0, "null_override": 0, "ops": 0}
         for config in ("fs", "fs_meta", "fs_cache"):
-            for h in range(n_hist if config == "fs" else n_hist // 2):
-                ops = gen_history(rng, rng.randint(4, length), ids)
+            targeted = []
+            if config == "fs_cache":
+                # two calls publish different arrays under ONE override key; both fall out of the memory cache; the later one
+                # is read (decoded again, and kept alive), then the earlier one: it must read ITS array
+                f0, big = BD.KEY_FNS[0], BD.KEY_FNS[-1]
+                ids[0] += 6
+                a, b_ = ids[0] - 5, ids[0] - 4
+                targeted = [[["memoize", f0, 0, a, "n", a, 200, OVERRIDES[0]], ["memoize", f0, 1, b_, "n", b_, 200, OVERRIDES[0]],
+                             ["memoize", big, 0, ids[0] - 3, "n", ids[0] - 3, 1500, None], ["memoize", big, 1, ids[0] - 2, "n", ids[0] - 2, 1500, None],
+                             ["memoize", big, 2, ids[0] - 1, "n", ids[0] - 1, 1500, None], ["read", f0, 1], ["read", f0, 0], ["read", f0, 1]]]
+            n_random = n_hist if config == "fs" else n_hist // 2
+            for h in range(n_random + len(targeted)):
+                ops = targeted[h - n_random] if h >= n_random else gen_history(rng, rng.randint(4, length), ids)
                 steps, bad, shared, dg = run_history(m, scratch, config, ops, "%s%d" % (config, h))
                 dist["ops"] += len(ops)
                 seen_vals = set()
